@@ -73,8 +73,8 @@ def str_atoms(tier="thorough"):
     for lit in ["linux", "linux2", "win32"] if quick else ["linux", "linux2", "win32", "win"]:
         for op in ("==", "!="):
             out.append({"var": "sys_platform", "op": op, "val": lit, "rev": False, "style": 0})
-        if quick and lit != "linux":
-            continue
+        if quick and lit == "win32":
+            continue  # "linux2" occurs as literal on the left AND as forward list below: same variable, same literal, both orientations
         out.append({"var": "sys_platform", "op": "==", "val": lit, "rev": True, "style": 0})
         for op in ("in", "not in"):
             out.append({"var": "sys_platform", "op": op, "val": lit, "rev": True, "style": 0})
